@@ -193,6 +193,17 @@ def expected_sample(pr, u):
 
 
 def run(ctx):
+    ll = dict(params=['datastd', 'chi_t_value'], results=['loglike'], prelude=('sqrtpi',),
+              value_calls={'self.chisq_trans': 'chi_t_value'}, skip_assign=('fit_params_container', 'data', 'datastd'))
+    C.source_tie(ctx, 'C06', [
+        dict(file='taurex/optimizer/optimizer.py', cls='Optimizer', method='chisq_trans', coq='gen_chisq',
+             params=['mydata', 'final_model', 'datastd'], results=None, start='res', skip_if=('np.all(np.isnan(res))',)),
+        dict(file='taurex/optimizer/nestle.py', cls='NestleOptimizer', method='compute_fit', coq='gen_nestle_loglike',
+             inner='nestle_loglike', **ll),
+        dict(file='taurex/optimizer/multinest.py', cls='MultiNestOptimizer', method='compute_fit', coq='gen_multinest_loglike',
+             inner='multinest_loglike', **ll),
+        dict(file='taurex/optimizer/polychord.py', cls='PolyChordOptimizer', method='compute_fit', coq='gen_polychord_loglike',
+             inner='polychord_loglike', **ll)])
     from taurex.exceptions import InvalidModelException
     rng = ctx.rng
     exprs, metas = [], []
